@@ -3,9 +3,9 @@ import os, re, subprocess
 from . import common as C
 
 MANIFEST = dict(
-   technique="Lean 4 proof (case analysis over the fast paths of ParsePrimitiveStrict against ParsePrimitive, reusing the C10 check-engine theorems; ParseComplexStrict against ParseComplex for arbitrary validators, extractors and transforms; induction over histories of constructor calls, copy-on-write derivations, CloneFrom of both flavours and entry-point calls on a heap of schemas with per-schema hidden state; evaluation of the whole entry-point table) + go/ast translator over types/*.go regenerating the table of how every entry point of every schema type is implemented + differential correspondence on real string schemas, string histories and integer histories + in-harness comparison of all six entry points on every schema type of the table, on well-typed and ill-typed inputs, cold and after histories",
-   text="c09_strict_eq_parse proves for the primitive engine path that StrictParse and Parse yield the same verdict, value and issue positions for every check list, every modifier configuration and every input of the strict static type (nil pointers included). c09_complex_strict_eq_parse proves the same for the complex engine path as it is after 692881a, for every validator, every behaviour of the extractors, every transform and every input, well-typed or not (the legacy function is kept as legacyStrictParse with four witnesses and legacy_not_agreeing). c09_table_as_expected, c09_table_wrappers and c09_table_covered are decided over the whole table regenerated from types/*.go on every run (53 schema types x 6 entry points: which engine function each entry point hands its input to, with which validator, with how many statements in front and behind): on every type ParseAny is 'return z.Parse(input, ctx...)' and each Must variant is the must-wrapper of its base entry point (c09_parseAny_eq_parse_all, c09_must_returns_or_panics say what those shapes do on every input), and every (Parse, StrictParse) pair is the bare engine pair the agreement theorems cover, is inherited from an embedded schema that is, or is a listed type-local implementation with its disposition (finding / compared by the run only); a re-routed entry point changes these proof obligations and the named rows aim the run. c09_history proves that in every history (constructors, any copy-on-write method, CloneFrom of both flavours in both directions, the six entry points called in any order any number of times) every entry point answers what Parse answers on the schema's current configuration, for any implementation whose per-schema state is Faithful; the pinned code is Faithful, a memoised flag copied by CloneFrom is not (memoising_stale_witness). The model is tied to /repo on String()/StringPtr() schemas with random check chains and modifier suffixes (all six entry points predicted), on histories over families of string schemas (copyAll CloneFrom) and of Int()/IntPtr() schemas (keepChecks CloneFrom) run through the Lean history machine, and on every schema type of the table the six entry points are compared with each other in the harness on well-typed inputs (strict pair) and on inputs of any kind (ParseAny, MustParse, MustParseAny; the recovered panic value is rendered as the error it must equal), on cold schemas and after histories whose derivation steps are found by reflection; a never-parsed twin separates history-induced disagreements from those of the configuration. Frame lines check by reflection that no field of core.ZodTypeInternals changes across a parse and that a derived schema's internals do not depend on earlier parses. Structure fingerprints of the 23 transcribed Go functions aim the run when one of them is edited.",
-   note="Trusted: Lean kernel; axioms propext/Classical.choice/Quot.sound at most; harness + comparer; the go/ast classification of method bodies (engine / fwd / must / inherit / own). The type-specific parts of the complex path (validator, pointer pre-pass of the checks, checks on a default or on nil, transform) are parameters of the model, so its theorem holds for every instantiation but says nothing about what a validator does; for the one type whose pair is the bare complex engine pair (ZodSlice) the result conversion of Parse is transcribed (sliceConv) and proved equal to ParseComplexStrict's. The Faithful hypotheses of c09_history are tied to the code by the frame observation. Type-local StrictParse implementations (16 types) are judged by the statement directly (entry points must agree); their deviations are listed as known findings by (type, Parse outcome class, StrictParse outcome class) and pending/C09-strict-*.diff route 15 of them through Parse (suite green, all classes but StringBool's disappear). Pointer identity of results is C15's business and not compared here.",
+   technique="Lean 4 proof (case analysis over the fast paths of ParsePrimitiveStrict against ParsePrimitive, reusing the C10 check-engine theorems; ParseComplexStrict against ParseComplex for arbitrary validators, extractors and transforms; statement-by-statement transcriptions of the four type-local (Parse, StrictParse) pairs - BigInt, File, Function, Struct - with their own agreement theorems; induction over histories of constructor calls, copy-on-write derivations, CloneFrom of both flavours and entry-point calls on a heap of schemas with per-schema hidden state; evaluation of the whole entry-point table, including the resolution of promoted methods through embedded schemas) + go/ast translator over types/*.go regenerating the table of how every entry point of every schema type is implemented and the source text of every statement around its engine call + differential correspondence on real string schemas, string histories and integer histories + in-harness comparison of all six entry points on every schema type of the table and on every zero-argument constructor of the library (value, pointer and Coerced variants), on well-typed and ill-typed inputs, cold and after histories",
+   text="c09_strict_eq_parse proves for the primitive engine path that StrictParse and Parse yield the same verdict, value and issue positions for every check list, every modifier configuration and every input of the strict static type (nil pointers included). c09_complex_strict_eq_parse proves the same for the complex engine path as it is after 692881a, for every validator, every behaviour of the extractors, every transform and every input, well-typed or not (the legacy function is kept as legacyStrictParse with four witnesses and legacy_not_agreeing). c09_table_as_expected, c09_table_wrappers and c09_table_covered are decided over the whole table regenerated from types/*.go on every run (53 schema types x 6 entry points: which engine function each entry point hands its input to, with which validator, with how many statements in front and behind): on every type ParseAny is 'return z.Parse(input, ctx...)' and each Must variant is the must-wrapper of its base entry point (c09_parseAny_eq_parse_all, c09_must_returns_or_panics say what those shapes do on every input), and every (Parse, StrictParse) pair is the bare engine pair the agreement theorems cover, is inherited from an embedded schema that is, or is one of four transcribed type-local implementations (c09_table_transcribed pins both rows and the text of every statement around the engine call; c09_bigint_strict_eq_parse, c09_file_strict_eq_parse, c09_function_same_verdict_value and c09_struct_partial are their agreement theorems, the last two with witnesses for the excluded region), or ZodStringBool, whose two entry points have different domains by design (c09_table_run_only); c09_table_bases follows promotion through embedded schemas and proves that on every type ParseAny, MustParse and MustParseAny bottom out in the implementation the type's Parse bottoms out in and MustStrictParse in that of StrictParse, so an override of one entry point that leaves the promoted wrappers behind is a failing obligation; a re-routed entry point changes these proof obligations and the named rows aim the run, which then puts every constructor of the named type under every modifier history of length <= 2 on its boundary inputs. c09_history proves that in every history (constructors, any copy-on-write method, CloneFrom of both flavours in both directions, the six entry points called in any order any number of times) every entry point answers what Parse answers on the schema's current configuration, for any implementation whose per-schema state is Faithful; the pinned code is Faithful, a memoised flag copied by CloneFrom is not (memoising_stale_witness). The model is tied to /repo on String()/StringPtr() schemas with random check chains and modifier suffixes (all six entry points predicted), on histories over families of string schemas (copyAll CloneFrom) and of Int()/IntPtr() schemas (keepChecks CloneFrom) run through the Lean history machine, and on every schema type of the table the six entry points are compared with each other in the harness on well-typed inputs (strict pair) and on inputs of any kind (ParseAny, MustParse, MustParseAny; the recovered panic value and a returned error are rendered with their dynamic type, so the panic value itself must be the error Parse returns; results carry their Go shape), on cold schemas and after histories whose derivation steps are found by reflection; a never-parsed twin separates history-induced disagreements from those of the configuration. Frame lines check by reflection that no field of core.ZodTypeInternals changes across a parse and that a derived schema's internals do not depend on earlier parses. A directed run starts from every zero-argument constructor of types/*.go (184; the registry is compared with the source on every run), in the variants plain / refined / +overwrite under modifier histories, on the family's samples as R, as themselves, behind pointers, as typed nil pointers, on nil, and on 36 foreign values including the standard library's value types (netip.Addr, net.IP, time.Time, *big.Int, json.Number, []byte). Structure fingerprints of the 41 transcribed Go functions aim the run when one of them is edited.",
+   note="Trusted: Lean kernel; axioms propext/Classical.choice/Quot.sound at most; harness + comparer; the go/ast classification of method bodies (engine / fwd / must / inherit / own). The type-specific parts of the complex path (validator, pointer pre-pass of the checks, checks on a default or on nil, transform) are parameters of the model, so its theorem holds for every instantiation but says nothing about what a validator does; for the one type whose pair is the bare complex engine pair (ZodSlice) the result conversion of Parse is transcribed (sliceConv) and proved equal to ParseComplexStrict's. The Faithful hypotheses of c09_history are tied to the code by the frame observation. The four transcribed type-local pairs are parametric in the validator and, for ZodStruct, in the text test its error rewrite is keyed on; the transcription is pinned by statement text and by the fingerprints of the helpers (parseNilInput, convertFileResult, convertToFileConstraintType, convertResult, convertToStructConstraintType, the extractors). ZodStringBool is judged by the statement directly in the run (known finding). Deviations are listed as known findings by (type, Parse outcome class, StrictParse outcome class): stringbool (by design), structnested (error rewrite keyed on text: pending/C09-struct-error-rewrite.diff), function (pointer shape; pinned by the library's own test). Pointer identity of results is C15's business and not compared here.",
    design="DESIGN.md §5 C09")
 
 MODULES = ["Gozod.Proofs.C09", "Gozod.Proofs.C09Complex", "Gozod.Proofs.C09Table", "Gozod.Proofs.C09TypeLocal"]
@@ -149,9 +149,10 @@ def _run(res):
     C.decide(res, "C09", data, key, "C09/ParsePrimitive+ParsePrimitiveStrict", describe=describe)
     res.coverage["rule"] = ("(A) String()/StringPtr() with 0-5 random checks (built-ins, Trim/ToLower/ToUpper/custom overwrites, refinements with 35% abort) and 0-3 random modifiers "
         "(Optional/Nilable/Nullish/NonOptional/Default/DefaultFunc/Prefault/PrefaultFunc) on inputs nil, typed nil, value, pointer, foreign kinds; "
-        "(B) every other schema type of the entry-point table (57 constructors), bare / with own checks / with a refinement / with an identity Overwrite on top, with 0-3 random modifiers applied by reflection, on every sample input convertible to the StrictParse parameter type plus its nil, and on ill-typed inputs of ten kinds for ParseAny / MustParse / MustParseAny; types the table or a fingerprint reports as changed get 12x the schemas; "
+        "(B) every other schema type of the entry-point table (57 constructors), bare / with own checks / with a refinement / with an identity Overwrite on top, with 0-3 random modifiers applied by reflection, on every sample input convertible to the StrictParse parameter type plus its nil, and on ill-typed inputs of ten kinds for ParseAny / MustParse / MustParseAny; "
+        "(B2) directed: every zero-argument constructor of types/*.go (value / pointer / Coerced) in the variants plain / refined / +overwrite under the empty modifier history and one drawn history of length <= 2 (a type the table or a fingerprint reports as changed: under all 73 histories), on every sample of its family as R, as itself, behind a pointer, as the typed nil pointer of its type, on nil-of-R, untyped nil and 36 foreign values incl. netip.Addr, *netip.Addr, net.IP, time.Time, *big.Int, json.Number, []byte, a Stringer, an error, a func; "
         "(C) histories: two relatives A, B of one type; 1-4 warm-up calls of random entry points (half of them strict) on random heap cells with value / nil inputs; one or two derivation routes "
         "(the cell itself, a method discovered by reflection on a warm cell - modifiers, checks, accessors, And/Or wrappers -, CloneFrom between two cells in either direction, a fresh bare schema receiving a warm one); "
-        "then the six entry points on the target in two random orders, and Parse / StrictParse on never-parsed twins when the warm ones disagree; one frame line per history; (D) the same histories over Int()/IntPtr() with Min/Max/Overwrite checks shipped in unary so that the string environment of the Lean machine predicts them with the keepChecks CloneFrom. distinct = distinct op lines.")
+        "then the six entry points on the target in two random orders, and Parse / StrictParse on never-parsed twins when the warm ones disagree; one frame line per history; (D) the same histories over Int()/IntPtr() with Min/Max/Overwrite/Refine checks shipped in unary so that the string environment of the Lean machine predicts them with the keepChecks CloneFrom. distinct = distinct op lines.")
     res.assumptions += ["ASCII strings", "result values compared after dereferencing (pointer identity is C15)"]
     return res.finish()
